@@ -5,6 +5,7 @@ import Dmn.Lemmas.DecIntegral
 import Dmn.Lemmas.DecSqrt
 import Dmn.Lemmas.DecParity
 import Dmn.Lemmas.DecModulo
+import Dmn.Lemmas.DecFeel
 
 /-!
 # C02 — FEEL numbers compute as IEEE 754-2008 decimal128 (34 digits, half-even)
@@ -352,6 +353,104 @@ example : WF ⟨false, 10, -1⟩ ∧ FNum.odd (.fin ⟨false, 10, -1⟩) = true 
 /-- `is_integer` holds exactly when the value is an integer (`1.0` and `1E+2` are) -/
 theorem is_integer_spec (a : D128) : FNum.isInteger (.fin a) = (toInt? a).isSome :=
   isInteger_spec a
+
+/-! ## the operators and built-ins as FEEL sees them: null for an undefined operation
+
+`FeelNum.*` (`Model/DecFeel.lean`) is the glue of builders.rs / core.rs around the `FeelNumber`
+methods: the zero-divisor guards of `/` and `modulo`, the sign guard of `sqrt`, the truncation
+and range test of the scale of `decimal`.  `none` is FEEL `null`. -/
+
+/-- `a / b`: null exactly for a zero divisor (of either sign and any exponent); otherwise the
+correctly rounded quotient (reduced) -/
+theorem feel_div_spec (a b : D128) (hb : b.coeff < 10 ^ 34) :
+    (b.coeff = 0 → FeelNum.div (.fin a) (.fin b) = none) ∧
+    (b.coeff ≠ 0 → ∃ r, DivSpec a b r ∧ FeelNum.div (.fin a) (.fin b) = some r.reduce) := by
+  unfold FeelNum.div
+  rw [FeelNum.isZeroNum_fin]
+  refine ⟨fun h => by simp [h], fun h => ⟨D128.div a b, div_correct a b hb, by simp [h]; rfl⟩⟩
+
+example : FeelNum.div (.fin ⟨false, 1, 0⟩) (.fin ⟨true, 0, -3⟩) = none ∧
+    FeelNum.div (.fin ⟨false, 1, 0⟩) (.fin ⟨false, 4, 0⟩) = some (.fin ⟨false, 25, -2⟩) := by decide
+
+/-- `modulo(a, b)`: null exactly for a zero divisor; otherwise the formula of `modulo_spec`
+(which is the mathematical modulo under `modExact`, `modulo_correct_partial`) -/
+theorem feel_modulo_null (a b : D128) :
+    (b.coeff = 0 → FeelNum.modulo (.fin a) (.fin b) = none) ∧
+    (b.coeff ≠ 0 → FeelNum.modulo (.fin a) (.fin b) = some (D128.modulo a b)) := by
+  unfold FeelNum.modulo
+  rw [FeelNum.isZeroNum_fin]
+  exact ⟨fun h => by simp [h], fun h => by simp [h]; rfl⟩
+
+example : FeelNum.modulo (.fin ⟨false, 10, 0⟩) (.fin ⟨false, 0, 5⟩) = none := by decide
+
+/-- `sqrt(a)`: null exactly for a negative number (`-0` is not one); otherwise the correctly
+rounded root (reduced) -/
+theorem feel_sqrt_spec (a : D128) (hwf : WF a) :
+    (a.neg = true ∧ a.coeff ≠ 0 → FeelNum.sqrt (.fin a) = none) ∧
+    (¬ (a.neg = true ∧ a.coeff ≠ 0) →
+      ∃ d, SqrtSpec a (.fin d) ∧ FeelNum.sqrt (.fin a) = some (.fin (D128.reduce d))) := by
+  unfold FeelNum.sqrt
+  rw [FeelNum.geZero_fin]
+  constructor
+  · intro h; simp [h.1, h.2]
+  · intro h
+    have hs := sqrt_correct a hwf
+    have hg : (!(a.neg && decide (a.coeff ≠ 0))) = true := by
+      cases hn : a.neg
+      · simp
+      · simp only [Bool.true_and, Bool.not_eq_true', decide_eq_false_iff_not]
+        intro hc; exact h ⟨hn, hc⟩
+    rw [hg]
+    simp only [if_true]
+    cases hr : D128.sqrt a with
+    | fin d =>
+      refine ⟨d, hr ▸ hs, ?_⟩
+      simp [FNum.sqrt, hr]
+    | inf s =>
+      exfalso
+      rw [hr] at hs
+      unfold SqrtSpec at hs
+      by_cases h0 : a.coeff = 0
+      · rw [if_pos h0] at hs; cases hs
+      · rw [if_neg h0] at hs
+        have hn : a.neg = false := by
+          cases hn : a.neg
+          · rfl
+          · exact absurd ⟨hn, h0⟩ h
+        simp [hn] at hs
+    | nan =>
+      exfalso
+      rw [hr] at hs
+      unfold SqrtSpec at hs
+      by_cases h0 : a.coeff = 0
+      · rw [if_pos h0] at hs; cases hs
+      · rw [if_neg h0] at hs
+        have hn : a.neg = false := by
+          cases hn : a.neg
+          · rfl
+          · exact absurd ⟨hn, h0⟩ h
+        simp [hn] at hs
+
+example : WF ⟨true, 4, 0⟩ ∧ FeelNum.sqrt (.fin ⟨true, 4, 0⟩) = none ∧
+    FeelNum.sqrt (.fin ⟨true, 0, 0⟩) = some (.fin ⟨true, 0, 0⟩) := by decide
+
+/-- `decimal(a, s)`: with `k` the scale `s` truncated towards zero to an integer — null when `k`
+lies outside `-6111 .. 6176`; inside, the multiple of `10^(-k)` nearest to `a`, ties to even
+(`RescaleSpec`), or — not null, finding F20 — NaN when that needs more than 34 digits -/
+theorem feel_decimal_spec (a s : D128) :
+    ∃ k : Int, toInt? (D128.trunc s) = some k ∧
+      ((-6111 ≤ k ∧ k ≤ 6176) → ∃ r, RescaleSpec a k r ∧ FeelNum.decimal (.fin a) (.fin s) = some r) ∧
+      (¬ (-6111 ≤ k ∧ k ≤ 6176) → FeelNum.decimal (.fin a) (.fin s) = none) := by
+  refine ⟨scaled (D128.trunc s) 0, FeelNum.toInt_trunc s, ?_, ?_⟩
+  · intro h
+    refine ⟨D128.rescale a (scaled (D128.trunc s) 0), rescale_correct a _ h.1 h.2, ?_⟩
+    rw [FeelNum.decimal_fin, if_pos h]
+  · intro h
+    rw [FeelNum.decimal_fin, if_neg h]
+
+example : FeelNum.decimal (.fin ⟨false, 25, -1⟩) (.fin ⟨false, 7, -1⟩) = some (.fin ⟨false, 2, 0⟩) ∧
+    FeelNum.decimal (.fin ⟨false, 1, 0⟩) (.fin ⟨false, 61775, -1⟩) = none ∧
+    FeelNum.decimal (.fin ⟨false, 1, 0⟩) (.fin ⟨true, 61119, -1⟩) = some (.fin ⟨false, 0, 6111⟩) := by decide +kernel
 
 /-! ## no infinite / NaN results at the FEEL level -/
 
